@@ -23,12 +23,13 @@ package pptx
 // ---- C15: list items keep their kind and depth: an auto-numbered paragraph is an ordered item at every level, a
 // character bullet or an indented paragraph without numbering a bullet item; buNone switches both off ----
 //@ func (*Reader) extractParagraph results (res)
-//@   property C15
+//@   property C15, C02
 //@   flags nosafety
 //@   requires !isnil(p)
-//@   ensures level_kept: !isnil(p.PPr) ==> res.Level == p.PPr.Lvl
+//@   ensures level_kept_within_the_drawingml_range: !isnil(p.PPr) && 0 <= p.PPr.Lvl && p.PPr.Lvl <= maxParagraphLevel ==> res.Level == p.PPr.Lvl
+//@   ensures level_is_bounded: 0 <= res.Level && res.Level <= maxParagraphLevel
 //@   ensures numbered_iff_auto_numbered: res.IsNumbered <==> (!isnil(p.PPr) && isnil(p.PPr.BuNone) && !isnil(p.PPr.BuAutoNum))
-//@   ensures bullet_iff_char_or_indented_without_numbering: res.IsBullet <==> (!isnil(p.PPr) && isnil(p.PPr.BuNone) && isnil(p.PPr.BuAutoNum) && (!isnil(p.PPr.BuChar) || p.PPr.Lvl > 0))
+//@   ensures bullet_iff_char_or_indented_without_numbering: res.IsBullet <==> (!isnil(p.PPr) && isnil(p.PPr.BuNone) && isnil(p.PPr.BuAutoNum) && (!isnil(p.PPr.BuChar) || res.Level > 0))
 //@   loop 0:
 //@     invariant para.IsNumbered == entry(para.IsNumbered) && para.IsBullet == entry(para.IsBullet) && para.Level == entry(para.Level)
 //@   loop 1:
